@@ -169,13 +169,33 @@ def explore_task(prog, run_path, task=None, loop_bound=200, timeout_ms=30000, ma
 _worker_fn = None
 
 
+class TaskTimeout(Exception):
+    pass
+
+
+def _alarm(signum, frame):
+    raise TaskTimeout()
+
+
+TASK_TIMEOUT = int(os.environ.get('VERIF_TASK_TIMEOUT', '900'))
+
+
 def _run_one(params):
+    import signal
+    t0 = time.time()
     try:
-        r = _worker_fn(params)
+        signal.signal(signal.SIGALRM, _alarm)
+        signal.alarm(TASK_TIMEOUT)
+        try:
+            r = _worker_fn(params)
+        finally:
+            signal.alarm(0)
+        if time.time() - t0 > 60:
+            sys.stderr.write('  [slow task %.0fs] %s\n' % (time.time() - t0, json.dumps(_jsonable(params))[:300]))
         if isinstance(r, list):
             return r
         return [r]
-    except Exception as e:
+    except BaseException as e:
         return [{'task': params, 'paths': 0, 'outcomes': collections.Counter(), 'violations': [],
                  'inconclusive': [{'kind': 'engine-error', 'detail': '%s: %s' % (type(e).__name__, traceback.format_exc()[-1500:])}],
                  'labels': set(), 'obligations': 0, 'samples': [], 'checks': 0, 'solver_s': 0.0, 'steps': 0,
